@@ -18,15 +18,16 @@ func init() {
 		Level:       "other",
 		Explanation: "Decides the table- and shape-level clauses: (R1) for every player count n the label table returns n pairwise-distinct labels beginning dealer, sb, bb (read from the typed syntax tree with constant evaluation); (R2) the rotation constant equals the index of the bb label in every row, the heads-up row is [bb], [dealer, sb], the rotate helper is append(src[k:], src[:k]...); (R3) player labels are written only by the position updater, by the continue reset (empty) and at construction (empty); (R4) the hand engine receives the same player's labels as stack (as C01.R4) and entry 0 gets a dealer label only when it has none; (R5) the next-BB list is built by a loop over bb+1 … bb+N modulo the same N, appending the id of the seat's player iff the seat is occupied and that player's bankroll is positive, is stored at settlement from the seat manager's current BB seat and reset by the continue step; (R6) the published dealer/SB/BB seats are stored from the seat manager's dealer/SB/BB getters respectively. NOT decided: label order for dead button / dead small blind / sitting-out layouts (slot counting over seat states).",
 		Rules: map[string]string{
-			"R1": "label table well-formed for every row",
-			"R2": "rotation constant = index of bb; heads-up row; rotate helper shape",
-			"R3": "who-may-write TablePlayerState.Positions",
-			"R4": "labels forwarded to the hand engine; dealer label added to entry 0 only if missing",
-			"R5": "next-BB scan shape, call-site arguments, store at settlement, reset at continue",
-			"R6": "seat publication pairing (no cross-wiring)",
-			"R7": "the dead dealer/SB label skip is not conditioned on the seat being occupied",
-			"R9": "the dealt-in flags (which decide who gets a label) are copied from the seat manager's eligibility, for every player, after this hand's rotation (shared with C05.R1)",
-			"R8": "label assignment pairing: the head of the remaining label list goes to the eligible player of the next seat counted from the seat manager's BB seat, found through an id→index map of the same player list",
+			"R1":  "label table well-formed for every row",
+			"R2":  "rotation constant = index of bb; heads-up row; rotate helper shape",
+			"R3":  "who-may-write TablePlayerState.Positions",
+			"R4":  "labels forwarded to the hand engine; dealer label added to entry 0 only if missing",
+			"R5":  "next-BB scan shape, call-site arguments, store at settlement, reset at continue",
+			"R6":  "seat publication pairing (no cross-wiring)",
+			"R7":  "the dead dealer/SB label skip is not conditioned on the seat being occupied",
+			"R10": "entry 0 of the hand's player list: the dealer's seat when a dealt-in player holds it, else the nearest active seat counter-clockwise from the SB seat (held) or the BB seat; seat-map entries skipped only when unset (shared with C02.R4)",
+			"R9":  "the dealt-in flags (which decide who gets a label) are copied from the seat manager's eligibility, for every player, after this hand's rotation (shared with C05.R1)",
+			"R8":  "label assignment pairing: the head of the remaining label list goes to the eligible player of the next seat counted from the seat manager's BB seat, found through an id→index map of the same player list",
 		},
 		Assumptions: []string{},
 		Run:         checkC06,
@@ -54,6 +55,8 @@ func checkC06(c *Ctx) {
 	lc := p.lifecycle()
 	// R9: who gets a label is decided by the dealt-in flags; they must be this hand's
 	checkDealtInCopy(c, "R9")
+	// R10: who is entry 0 of the hand's list (the hand engine's dealer position)
+	checkHandListStart(c, "R10")
 	// position updater: writes non-empty labels to players (non-local store whose value is not an empty slice)
 	var updater *ssa.Function
 	nW := 0
